@@ -419,13 +419,28 @@ def execLoaded (d : Defaults) : Bool := "exec".toList ∈ d.rcmdModules
 
 /-- `nops` = number of operands left after the options; the named files are assumed to exist
     (regular source files; for rpdcp a destination directory) -/
-def optVerify (fx : Fixes) (d : Defaults) (p : Pers) (c : Cfg) (nops : Nat) : Bool :=
+def optVerifyPlain (fx : Fixes) (d : Defaults) (p : Pers) (c : Cfg) (nops : Nat) : Bool :=
   -- mod_postop: exec refuses a connect time-out
   let v1 := !(execLoaded d && c.rcmdName = some "exec".toList && c.connectTimeout ≠ CONNECT_TIMEOUT)
   let plain := !c.pcpServer && !c.pcpClient
   let v2 := !plain || (c.hasWcoll && c.connectTimeout ≥ 0 && c.commandTimeout ≥ 0 && (!fx.d4 || c.fanout ≥ 1))
   let v3 := !(p.isPcp && plain) || (nops ≥ 2 && !c.targetIsDir)
   v1 && v2 && v3
+
+/-- the undocumented pdcp server (-z) / client (-Z) modes: the PCP sanity checks of opt_verify on the operand count
+    (server: exactly the output file, not rpdcp; client: source files and the client host; never both) -/
+def optVerifyModes (p : Pers) (c : Cfg) (nops : Nat) : Bool :=
+  !(p.isPcp && c.pcpServer && c.pcpClient) &&
+  (!(p.isPcp && c.pcpServer) || (nops = 1 && p ≠ .rpdcp)) &&
+  (!(p.isPcp && c.pcpClient) || nops ≥ 2)
+
+def optVerify (fx : Fixes) (d : Defaults) (p : Pers) (c : Cfg) (nops : Nat) : Bool :=
+  optVerifyPlain fx d p c nops && optVerifyModes p c nops
+
+theorem optVerify_plain (fx : Fixes) (d : Defaults) (p : Pers) (c : Cfg) (nops : Nat)
+    (h1 : c.pcpServer = false) (h2 : c.pcpClient = false) :
+    optVerify fx d p c nops = optVerifyPlain fx d p c nops := by
+  simp [optVerify, optVerifyModes, h1, h2]
 
 /-! ### main -/
 
